@@ -246,6 +246,36 @@ fn workload(m: &mut Mon, bits: usize) {
             break;
         }
     }
+    // exact multiples n = Q*d of one- and two-limb divisors: the remainder candidate inside the 2-by-1 /
+    // 3-by-2 step can then equal the divisor exactly, which only the second correction handles
+    let mut r = m.stream("c03.exact", bits);
+    let small_divs: [u64; 14] = [3, 7, 17, 257, 65537, (1 << 32) + 1, (1 << 32) - 1, 10_000_000_000_000_000_000, 0xffff_ffff_ffff_ffc5,
+                                 0x8000_0000_0000_0001, 0xaaaa_aaaa_aaaa_aaab, 0x1_0000_0001, 641, 6_700_417];
+    for i in 0..m.iters(if bits <= 512 { 600 } else { 100 }) {
+        if !m.keep() {
+            continue;
+        }
+        let d: BigUint = match i % 4 {
+            0 => BigUint::from(*r.pick(&small_divs)),
+            1 => BigUint::from(gen::alpha_limb(&mut r) | 1),
+            2 => BigUint::from(r.u64() | 1),
+            _ => big::big(&[gen::alpha_limb(&mut r), gen::alpha_limb(&mut r) | 1]),
+        };
+        if !big::fits(&d, bits) || d.is_zero() {
+            continue;
+        }
+        let qbits = bits - d.bits() as usize;
+        if qbits == 0 {
+            continue;
+        }
+        let q = big::big(&gen::hostile(&mut r, qbits));
+        big_case(m, bits, &(&q * &d), &d);
+        // and one below / above the exact multiple
+        if !q.is_zero() {
+            big_case(m, bits, &(&q * &d - 1u8), &d);
+        }
+        big_case(m, bits, &(&q * &d + 1u8), &d);
+    }
     // random: hostile divisor of random shape, numerator by random recipe
     let mut r = m.stream("c03.random", bits);
     let iters = m.iters(if bits <= 256 { 5000 } else if bits <= 1024 { 1500 } else { 300 });
